@@ -84,6 +84,36 @@ pub fn main() {
             },
             // "does no IO": with the process cwd deleted from under it, arguments that do not need the cwd
             // still resolve. LAST request of a child (the cwd stays broken)
+            // Stdfs::set_cwd the three ways (associated function, trait method on the value, Vfs::Stdfs) on a cwd
+            // reached through a link; every way starts from the same directory. Only in a child: the cwd is the
+            // process's
+            "set_cwd_ways" => {
+                let dir = req["dir"].as_str().unwrap_or("/nonexistent").to_string();
+                let prep = std::fs::create_dir_all(format!("{}/real/sub", dir)).and_then(|_| std::os::unix::fs::symlink(format!("{}/real", dir), format!("{}/link", dir)));
+                match prep {
+                    Ok(_) => {
+                        let mut rows = vec![];
+                        for spelled in [format!("{}/link", dir), format!("{}/link/sub", dir), format!("{}/real/sub", dir), format!("{}/link/../link/sub", dir), "link/sub".to_string(), format!("{}/missing", dir)] {
+                            let mut row = vec![];
+                            for way in 0..3 {
+                                let _ = std::env::set_current_dir(&dir);
+                                let r = match way {
+                                    0 => catch(|| Stdfs::set_cwd(&spelled)),
+                                    1 => catch(|| Stdfs::new().set_cwd(&spelled)),
+                                    _ => catch(|| Vfs::stdfs().set_cwd(&spelled)),
+                                };
+                                let after = std::env::current_dir().ok().map(|p| p.to_string_lossy().to_string());
+                                row.push(json!({"result": res_path(r), "process_cwd": after}));
+                            }
+                            rows.push(json!({"spelled": spelled, "ways": row}));
+                        }
+                        let _ = std::env::set_current_dir("/");
+                        let _ = std::fs::remove_dir_all(&dir);
+                        json!({"rows": rows})
+                    },
+                    Err(e) => json!({"harness_error": format!("prepare {}: {}", dir, e)}),
+                }
+            },
             "abs_std_nocwd" => {
                 let dir = req["dir"].as_str().unwrap_or("/nonexistent");
                 let prep = std::fs::create_dir_all(dir).and_then(|_| std::env::set_current_dir(dir)).and_then(|_| std::fs::remove_dir(dir));
@@ -110,8 +140,13 @@ pub fn main() {
                 "path_dirs": res_paths(catch(user::path_dirs)),
             }),
             "config_dir_mem" => {
-                // files: absolute-or-relative paths to create (parents made first) on a fresh Memfs
+                // files: absolute-or-relative paths to create (parents made first) on a fresh Memfs; an optional cwd
+                // is entered first (relative candidates are relative to the filesystem's cwd)
                 let m = Memfs::new();
+                if let Some(cwd) = req["cwd"].as_str() {
+                    let _ = m.mkdir_p(cwd);
+                    let _ = m.set_cwd(cwd);
+                }
                 for f in req["files"].as_array().cloned().unwrap_or_default() {
                     if let Some(f) = f.as_str() {
                         if let Ok(abs) = m.abs(f) {
